@@ -7,7 +7,7 @@ from typing import Dict, List, Optional, Set, Tuple
 from .core import AnalysisError, Report
 from .effects import Effects, FuncId, FS_READ, FS_WRITE, MAY_REJECT, NONDET
 from .prog import (ClassInfo, ModuleInfo, Program, dotted, enclosing, func_params, guards_of, inline_locals,
-                   local_assignments, parent, unparse, walk_no_nested)
+                   local_assignments, parent, stmt_of, unparse, walk_no_nested)
 
 SWALLOWING = {"Exception", "BaseException", "ParseBaseException", "ParseException",
               "ParseSyntaxException", "ParseFatalException", "ValueError", "AssertionError"}
@@ -1687,3 +1687,47 @@ def rule_locals_defined(ctx, rep: Report, rid="U1", packages=("gtwrap/",), min_f
     rep.add(rid, "defined-before-use:functions analysed", True, f"{n} functions", "", nontrivial=False)
     if n < min_functions:
         raise AnalysisError(f"{rep.prop}/{rid}: only {n} functions analysed")
+
+
+def rule_namespace_path_lookup(ctx, rep: Report, rid="V6"):
+    """find_sub_namespace(namespace, path) - the walk that typedef resolution and class lookup rely on - returns the
+    namespace itself for the empty path, considers *every* nested namespace whose name equals the first component
+    (a namespace may be opened more than once), descends with exactly the remaining components and collects the
+    results of all of them.  Stopping at the first match loses the later blocks of a re-opened namespace; skipping a
+    component resolves a::b::c::X in the wrong scope."""
+    prog = ctx.prog
+    mi = prog.module("gtwrap/interface_parser/namespace.py")
+    fn = mi.functions.get("find_sub_namespace")
+    if fn is None:
+        raise AnalysisError("find_sub_namespace not found")
+    ps = func_params(fn)
+    nsp, pathp = ps[0], ps[1]
+    loc = f"{mi.rel}:{fn.lineno}"
+    base = [i for i in fn.body if isinstance(i, ast.If) and unparse(i.test).replace(" ", "") in (f"not{pathp}", f"len({pathp})==0", f"{pathp}==[]")
+            and len(i.body) == 1 and isinstance(i.body[0], ast.Return) and unparse(i.body[0].value).replace(" ", "") == f"[{nsp}]"]
+    rep.add(rid, "path lookup:find_sub_namespace:the empty path denotes the namespace itself", len(base) == 1, "", loc, nontrivial=False)
+    rec = [c for c in ast.walk(fn) if isinstance(c, ast.Call) and unparse(c.func) == fn.name]
+    slices_ok = bool(rec) and all(len(c.args) == 2 and unparse(inline_locals(fn, c.args[1])).replace(" ", "") == f"{pathp}[1:]" for c in rec)
+    rep.add(rid, "path lookup:find_sub_namespace:each level consumes exactly one component of the path", slices_ok,
+            f"recursive calls {[unparse(c)[:60] for c in rec]}: the remaining path must be {pathp}[1:]", loc)
+    heads = [c for c in ast.walk(fn) if isinstance(c, ast.Compare) and len(c.ops) == 1 and isinstance(c.ops[0], ast.Eq)
+             and f"{pathp}[0]" in (unparse(inline_locals(fn, c.left)).replace(" ", ""), unparse(inline_locals(fn, c.comparators[0])).replace(" ", ""))]
+    rep.add(rid, "path lookup:find_sub_namespace:candidates are the nested namespaces named like the first component", len(heads) == 1,
+            f"{len(heads)} comparison(s) with {pathp}[0]", loc, nontrivial=False)
+    # every candidate is explored: no return / break inside a loop over candidates, results accumulated
+    early = []
+    for c in rec:
+        l = enclosing(c, ast.For)
+        st = stmt_of(c)
+        if isinstance(st, ast.Return) and l is not None:
+            early.append(st)
+        if l is not None:
+            early += [x for x in ast.walk(l) if isinstance(x, (ast.Break,)) or (isinstance(x, ast.Return) and x is not st and enclosing(x, ast.For) is l)]
+    picks_first = [x for x in ast.walk(fn) if (isinstance(x, ast.Call) and unparse(x.func) == "next") or
+                   (isinstance(x, ast.Subscript) and isinstance(x.slice, ast.Constant) and x.slice.value == 0 and unparse(x.value) != pathp
+                    and isinstance(x.ctx, ast.Load))]
+    in_loop_or_comp = bool(rec) and all(enclosing(c, (ast.For, ast.ListComp, ast.GeneratorExp)) is not None for c in rec)
+    rep.add(rid, "path lookup:find_sub_namespace:every matching namespace is searched and the results are collected", not early and not picks_first and in_loop_or_comp,
+            f"early exits inside the candidate loop: {len(early)}, first-element picks: {len(picks_first)}, recursion per candidate: {in_loop_or_comp} - "
+            f"with `namespace gtsam {{..}} namespace gtsam {{ template<T> class F{{}}; }}` only the first block is searched and a legal typedef "
+            f"of gtsam::F is rejected ('Cannot find class')", loc)
